@@ -1101,6 +1101,8 @@ func main() {
 	w("]\n")
 	w("def enterFuncDrops : Bool := %v\n", enterFuncShape(cmpF))
 	w("def predeclaresFuncs : Bool := %v\n", predeclareShape(cmpF))
+	w("def tupleStoresLastFirst : Bool := %v\n", tupleAssignShape(cmpF))
+	w("def typeRedeclarationMerges : Bool := %v\n", typeObjectShape(valF, parseFile(repo, "do.go")))
 	w("def enterFuncCases : List String := [")
 	for i, e := range enter {
 		if i > 0 {
